@@ -3,7 +3,7 @@ The translated source equals the model: src/timezone/mod.rs `TimeZoneSettings::{
 (C20). The translation threads the log of the paths handed to the injected file-reading function; the model returns
 the list of paths requested next to the result. `fsOf` reads the model's virtual file system off the injected function.
 -/
-import TzVerif.Generated.Src
+import TzVerif.SrcBase
 import TzVerif.Model.TzFile
 import TzVerif.Proofs.SrcEqTzFile
 import TzVerif.Proofs.SrcEqTzFileAux
